@@ -16,6 +16,17 @@ type Extension interface {
 	GetTrack(stopTimeUpdate *gtfsrt.TripUpdate_StopTimeUpdate) *string
 }
 
+// PerFeedExtension is optionally implemented by extensions that keep state while a
+// feed message is being parsed. When the extension passed to the parser implements it,
+// the parser calls NewFeed once per feed message and uses the returned extension for
+// that message only, so that no state leaks from one message into the next and one
+// extension value can be used for many (possibly concurrent) parse calls.
+type PerFeedExtension interface {
+	Extension
+
+	NewFeed() Extension
+}
+
 type UpdateTripResult struct {
 	// Whether this trip should be skipped.
 	ShouldSkip bool
